@@ -250,7 +250,11 @@ def _install_refs(w):
                 return d
             spec = w.field_spec(v.cls, attr)
             if spec is not None:
-                return read_attr(it, v.cls.__name__, v.t, RefS, attr, spec)
+                r = read_attr(it, v.cls.__name__, v.t, RefS, attr, spec)
+                if isinstance(r, VRef):
+                    from . import namesets
+                    namesets.child_fact(it, r, v)
+                return r
             # methods / properties of the real class
             import types as _t
             import inspect as _inspect
@@ -264,6 +268,11 @@ def _install_refs(w):
                     if type(m).__name__ == "cached_property":
                         return it.call_function(m.func, [v], {}, node, name=f"{k.__name__}.{attr}")
                     if isinstance(m, (str, int, bool, type(None))):
+                        import dataclasses as _dc
+                        if _dc.is_dataclass(v.cls) and attr in {f.name for f in _dc.fields(v.cls)}:
+                            # the class attribute of a dataclass field is only its default: the
+                            # instance's value needs a declared shape
+                            raise Unsupported(f"no shape for field {v.cls.__name__}.{attr}")
                         return it.lift(m)
             raise Unsupported(f"no shape for field {v.cls.__name__}.{attr}")
         if isinstance(v, VOMap):
@@ -327,6 +336,11 @@ def _install_refs(w):
         if it.st.spec:
             raise Unsupported("dict.get in a specification")
         if it.decide(z3.And(0 <= idx, idx < OMAP_LEN(m.t))):
+            # a name found in a table belongs to the finite universe of names that the measured
+            # visited sets / maps count (pyvc/namesets.py); an otherwise unconstrained predicate
+            from . import namesets, maps
+            kv = sym.as_view(args[0])
+            it.sadd(namesets.IN_U(maps.STRKEY(kv.arr, kv.hi)))
             return val_at(it, m, idx)
         return default
     w.builtins["omap.get"] = o_get
